@@ -98,7 +98,7 @@ Definition try_make (c : cfg) (j : Z) : M (Z + exn) :=
       (if c_tls c then
          o2 <-- pop ;;
          match o2 with
-         | OFail e => log (EWrap sid (-1)) ;;; throw e
+         | OFail e => log (EWrapFail sid) ;;; throw e
          | _ => w <-- fresh_wrapped sid ;; log (EWrap sid w) ;;; ret (inl w)
          end
        else ret (inl sid))
@@ -198,6 +198,14 @@ Fixpoint fetch_loop (fuel : nat) (c : cfg) (name : list Z) (expect_cas : bool)
     else throw MemcacheUnknownError
   end.
 
+(* the socket phase of _fetch_cmd: everything inside its try block *)
+Definition fetch_io (c : cfg) (name : list Z) (expect_cas : bool) (remapped : list (list Z * dyn)) (cmd : list Z) : M (list dyn) :=
+  exchange (mtry (
+    ensure_connected c ;;;
+    send cmd ;;;
+    fun w => fetch_loop (S (S (length (w_buf w ++ cur_avail w)))) c name expect_cas remapped [] w
+  ) (h_fetch c) (fun e => client_close ;;; if c_ignore_exc c && exn_isa e Exception_ then ret [] else throw e)).
+
 (* keys are materialised once (list(keys)); `prefix` is self.key_prefix for data commands, b"" for stats *)
 Definition fetch_cmd (c : cfg) (name : list Z) (keys : list dyn) (expect_cas : bool) (prefix : list Z) (expire : option dyn)
   : M (list dyn) :=
@@ -206,11 +214,7 @@ Definition fetch_cmd (c : cfg) (name : list Z) (keys : list dyn) (expect_cas : b
   let remapped := fold_left (fun d kw => bdict_set d (fst kw) (snd kw)) (combine pks keys) [] in
   eb <-- lift (match expire with Some e => bind (check_integer c e) (fun b => Ok (L_sp ++ b)) | None => Ok [] end) ;;
   let cmd := name ++ eb ++ (match pks with [] => [] | _ => L_sp ++ join_with L_sp pks end) ++ L_crlf in
-  exchange (mtry (
-    ensure_connected c ;;;
-    send cmd ;;;
-    fun w => fetch_loop (S (S (length (w_buf w ++ cur_avail w)))) c name expect_cas remapped [] w
-  ) (h_fetch c) (fun e => client_close ;;; if c_ignore_exc c && exn_isa e Exception_ then ret [] else throw e)).
+  fetch_io c name expect_cas remapped cmd.
 
 (* ------------------------------------------------------------------ _store_cmd *)
 Definition data_bytes (c : cfg) (d : dyn) : exc (list Z) :=
@@ -226,6 +230,20 @@ Definition store_result (name line : list Z) : exc dyn :=
     Ok (if list_eqb line L_STORED then DBool true
         else if list_eqb line L_NOT_FOUND then DNone else DBool false)
   else Raise MemcacheUnknownError.
+
+(* the socket phase of _store_cmd: lazy connect, then the try block *)
+Definition store_io (c : cfg) (name : list Z) (values : list (dyn * dyn)) (noreply : bool) (cmds : list Z) : M (list dyn) :=
+  ensure_connected c ;;;
+  exchange (mtry (
+    send cmds ;;;
+    if noreply then ret (fold_left (fun d kv => dict_set d (fst kv) (DBool true)) values [])
+    else
+      mfor values (fun kv results =>
+              line <-- guarded_reader (fun cs avail buf => readline cs avail [] buf 0) ;;
+              lift (raise_errors line) ;;;
+              v <-- lift (store_result name line) ;;
+              ret (dict_set results (fst kv) v)) []
+  ) (h_store c) (fun e => client_close ;;; throw e)).
 
 Definition store_cmd (c : cfg) (name : list Z) (values : list (dyn * dyn)) (expire : dyn) (noreply : bool)
                      (flags : dyn) (cas : option (list Z)) : M (list dyn) :=
@@ -243,17 +261,7 @@ Definition store_cmd (c : cfg) (name : list Z) (values : list (dyn * dyn)) (expi
         bind (go t) (fun rest =>
         Ok (name ++ L_sp ++ key ++ L_sp ++ fb ++ L_sp ++ eb ++ L_sp ++ str_of_Z (zlen db) ++ extra ++ L_crlf ++ db ++ L_crlf ++ rest))))))
       end) values) ;;
-  ensure_connected c ;;;
-  exchange (mtry (
-    send cmds ;;;
-    if noreply then ret (fold_left (fun d kv => dict_set d (fst kv) (DBool true)) values [])
-    else
-      mfor values (fun kv results =>
-              line <-- guarded_reader (fun cs avail buf => readline cs avail [] buf 0) ;;
-              lift (raise_errors line) ;;;
-              v <-- lift (store_result name line) ;;
-              ret (dict_set results (fst kv) v)) []
-  ) (h_store c) (fun e => client_close ;;; throw e)).
+  store_io c name values noreply cmds.
 
 (* ------------------------------------------------------------------ _misc_cmd *)
 Definition misc_cmd (c : cfg) (cmds : list (list Z)) (noreply : bool) (end_tokens : list Z) : M (list (list Z)) :=
